@@ -387,6 +387,7 @@ impl DataWorld {
                     Ok(_) => "ref-reader-differs".to_string(),
                     Err(x) => format!("ref-reader: {x}"),
                 }));
+                e.insert("refok".into(), json!(matches!(&st, Ok(s) if s.data.as_ref() == Some(data))));
                 e.insert("n".into(), json!(chunks.len() + 1));
                 e.insert("maxsz".into(), json!(maxsz));
                 e.insert("maxenc".into(), json!(maxenc));
@@ -489,7 +490,9 @@ impl DataWorld {
                 for c in chunks.iter() {
                     store.insert(XorName(sha3(c.value())), c.value().clone());
                 }
-                structure(root.value(), &store).map(|s| s.levels.len()).unwrap_or(0)
+                // a tree that cannot be walked with the chunks `encrypt` handed out counts as "deep": it must be
+                // selected and judged, not skipped
+                structure(root.value(), &store).map(|s| s.levels.len()).unwrap_or(99)
             }
             Err(_) => 0,
         }
@@ -709,7 +712,8 @@ fn build_pads(owner: &bls::SecretKey, other: &bls::SecretKey) -> Vec<PadKind> {
             "valid3" => (pk, 3, Some(owner.sign(signing_bytes(3, &enc))), key.clone()),
             "unsigned" => (pk, 5, None, key.clone()),
             "badsig" => (pk, 6, Some(other.sign(signing_bytes(6, &enc))), key.clone()),
-            "inflated" => (pk, 9, Some(owner.sign(signing_bytes(2, &enc))), key.clone()),
+            // the most extreme inflation: the largest counter value there is (boundary member of the class)
+            "inflated" => (pk, u64::MAX, Some(owner.sign(signing_bytes(2, &enc))), key.clone()),
             "foreign" => (pk2, 7, Some(other.sign(signing_bytes(7, &enc))), key.clone()),
             "wrongkey" => (pk2, 8, Some(other.sign(signing_bytes(8, &enc))), key2.clone()),
             "wrongkind" => {
